@@ -1,5 +1,5 @@
 """Runs block-sparse tensor programs of harness/npc_gen.py against tenpy (fresh interpreter).
-Shared by C01 and C02.  payload: {'kind': 'programs'|'legs'|'labels'|'c02x', 'config': 'py'|'cy', 'programs': [...], 'progress': path}
+Shared by C01 and C02.  payload: {'kind': 'programs'|'legs'|'labels'|'c02x'|'c01reflect'|'c01cov', 'config': 'py'|'cy', 'programs': [...], 'progress': path}
 Before every step the position is written to the progress file, so that a hard crash of the interpreter
 (e.g. SIGFPE inside the compiled extension) can be attributed to a concrete program and operation."""
 import json
@@ -35,13 +35,24 @@ def main():
             out.append(r)
         json.dump({'info': info, 'results': out}, open(sys.argv[2], 'w'))
         return
+    if payload['kind'] in ('c01reflect', 'c01cov'):      # coverage tables of C01 (harness/c01_ext.py)
+        import c01_ext
+        for case in payload['programs']:
+            out.append({'api': c01_ext.reflect_api()} if payload['kind'] == 'c01reflect' else c01_ext.measure_line_coverage(case['programs'], payload['config']))
+        json.dump({'info': info, 'results': out}, open(sys.argv[2], 'w'))
+        return
     for pi, prog in enumerate(payload['programs']):
         try:
             if payload['kind'] == 'legs':
                 out.append(npc_gen.run_leg_program(prog, payload['config']))
             elif payload['kind'] == 'c02x':     # streams of harness/c02_linalg.py (C02 only)
                 import c02_linalg
-                out.append(c02_linalg.run_case(prog, payload['config']))
+                progress = None
+                if prog_path and prog.get('kind2') == 'wrap':       # tensor programs run through kind c02x: position of a hard crash
+                    def progress(k, o, sc, pi=pi, ops=None):
+                        with open(prog_path, 'w') as f:
+                            json.dump({'program': pi, 'step': k, 'op': o, 'struct': sc, 'ops': ops or []}, f)
+                out.append(c02_linalg.run_case(prog, payload['config'], progress))
             else:
                 R = npc_gen.ProgramRunner(prog, payload['config'])
                 if prog_path:
